@@ -298,6 +298,33 @@ class DictV:
         return f"DictV({self.pairs})"
 
 
+class LazyDictV:
+    """dict with arbitrary (unbounded) contents whose entries are materialised on first
+    touch: `overlay` holds every key this path has looked at ([key, value, present]);
+    everything else is the untouched `base` (membership: uninterpreted predicate, values:
+    produced by gen_value when first read, count: m).  What is not in the overlay is, by
+    construction, exactly as it was -- the frame comes for free."""
+
+    __slots__ = ("ident", "overlay", "base_alive", "base_dom", "m", "gen_value", "gen_key", "default_factory", "n_touch", "touched_log", "it_memo", "version")
+
+    def __init__(self, ident, base_dom, m, gen_value, gen_key=None, default_factory=None):
+        self.ident = ident
+        self.overlay = []
+        self.base_alive = True
+        self.base_dom = base_dom
+        self.m = m
+        self.gen_value = gen_value
+        self.gen_key = gen_key
+        self.default_factory = default_factory
+        self.n_touch = 0
+        self.touched_log = []  # (ordinal, key) of entries materialised from the base
+        self.it_memo = {}
+        self.version = 0  # bumped by clear()
+
+    def __repr__(self):
+        return f"LazyDictV<{self.ident} overlay={len(self.overlay)}>"
+
+
 class MapV:
     """dict with symbolic contents over the universal value sort (pyvc/valenc.py):
     dom : Val -> Bool, val : Val -> Val, typed by descriptors."""
